@@ -38,6 +38,25 @@ int main(int argc, char **argv)
     printf("huge aead 2^%s+5: ok\n", argv[2]);
     return 0;
   }
+  if (argc >= 2 && !strcmp(argv[1], "ad")) {
+    /* associated data of 2^32+5 bytes (untouched zero mapping): the tag must cover ALL of it */
+    size_t adlen = ((size_t)1 << 32) + 5, cl = 0, ml = 0;
+    unsigned char *ad = mmap(0, adlen, PROT_READ, MAP_PRIVATE | MAP_ANONYMOUS | MAP_NORESERVE, -1, 0);
+    unsigned char k[32], n[12], m[13], c1[21], c2[21], o[13];
+    if (ad == MAP_FAILED) return 99;
+    for (int i = 0; i < 32; i++) k[i] = (unsigned char)(0x80 + i);
+    for (int i = 0; i < 12; i++) n[i] = (unsigned char)(0xC0 + i);
+    for (int i = 0; i < 13; i++) m[i] = (unsigned char)(i * 11);
+    for (int siv = 0; siv < 2; siv++) {
+      if (siv) { tinyjambu_128_siv_encrypt(c1, &cl, m, 13, ad, adlen, n, k); tinyjambu_128_siv_encrypt(c2, &cl, m, 13, ad, 5, n, k); }
+      else { tinyjambu_128_aead_encrypt(c1, &cl, m, 13, ad, adlen, n, k); tinyjambu_128_aead_encrypt(c2, &cl, m, 13, ad, 5, n, k); }
+      if (!memcmp(c1 + 13, c2 + 13, 8)) { printf("FAIL huge ad: %s tag for 2^32+5 bytes of associated data equals the tag for its first 5 bytes\n", siv ? "SIV" : "AEAD"); return 1; }
+      int r = siv ? tinyjambu_128_siv_decrypt(o, &ml, c1, 21, ad, 5, n, k) : tinyjambu_128_aead_decrypt(o, &ml, c1, 21, ad, 5, n, k);
+      if (r != -1) { printf("FAIL huge ad: %s packet sealed with 2^32+5 bytes of associated data opens with a 5-byte prefix of it (result %d)\n", siv ? "SIV" : "AEAD", r); return 1; }
+    }
+    printf("huge ad 2^32+5: ok\n");
+    return 0;
+  }
   if (argc >= 2 && !strcmp(argv[1], "hash")) {
     size_t len = ((size_t)1 << 32) + 5;
     unsigned char *buf = bigmap(len), d1[32], d2[32];
@@ -49,6 +68,12 @@ int main(int argc, char **argv)
     while (pos < len) { size_t c = len - pos < piece ? len - pos : piece; tinyjambu_hash_update(&st, buf + pos, c); tinyjambu_hash_update(&st, 0, 0); pos += c; }
     tinyjambu_hash_finalize(&st, d2);
     if (memcmp(d1, d2, 32)) { printf("FAIL huge hash: one-shot digest of a 2^32+5 byte message differs from the digest streamed in 1 GiB+3 byte pieces\n"); return 1; }
+    /* a partial block pending, then one update of 2^32+3 bytes */
+    tinyjambu_hash_init(&st); tinyjambu_hash_update(&st, (const unsigned char *)"hello", 5); tinyjambu_hash_update(&st, buf, len - 2); tinyjambu_hash_finalize(&st, d1);
+    tinyjambu_hash_init(&st); tinyjambu_hash_update(&st, (const unsigned char *)"hello", 5);
+    pos = 0; while (pos < len - 2) { size_t c = len - 2 - pos < piece ? len - 2 - pos : piece; tinyjambu_hash_update(&st, buf + pos, c); pos += c; }
+    tinyjambu_hash_finalize(&st, d2);
+    if (memcmp(d1, d2, 32)) { printf("FAIL huge hash: update(5 bytes) then ONE update of 2^32+3 bytes differs from the same bytes streamed in 1 GiB+3 byte pieces\n"); return 1; }
     printf("huge hash 2^32+5: ok\n");
     return 0;
   }
